@@ -1271,6 +1271,45 @@ private:
     return true;
   }
 
+  // Reads the four hex digits that follow the 'u' at _pos; leaves _pos on the last digit.
+  bool _parseHex4(std::uint32_t &unit)
+  {
+    const char *first = _text.data() + _pos + 1;
+    if (_pos + 4 >= _text.size() || std::from_chars(first, first + 4, unit, 16).ptr != first + 4)
+    {
+      _error = "Invalid unicode escape";
+      return false;
+    }
+    _pos += 4;
+    return true;
+  }
+
+  static void _appendUtf8(std::string &str, std::uint32_t cp)
+  {
+    if (cp < 0x80)
+    {
+      str += static_cast<char>(cp);
+    }
+    else if (cp < 0x800)
+    {
+      str += static_cast<char>(0xC0 | (cp >> 6));
+      str += static_cast<char>(0x80 | (cp & 0x3F));
+    }
+    else if (cp < 0x10000)
+    {
+      str += static_cast<char>(0xE0 | (cp >> 12));
+      str += static_cast<char>(0x80 | ((cp >> 6) & 0x3F));
+      str += static_cast<char>(0x80 | (cp & 0x3F));
+    }
+    else
+    {
+      str += static_cast<char>(0xF0 | (cp >> 18));
+      str += static_cast<char>(0x80 | ((cp >> 12) & 0x3F));
+      str += static_cast<char>(0x80 | ((cp >> 6) & 0x3F));
+      str += static_cast<char>(0x80 | (cp & 0x3F));
+    }
+  }
+
   bool _parseString(Json &out)
   {
     if (_text[_pos] != '"')
@@ -1326,15 +1365,34 @@ private:
           str += '\t';
           break;
         case 'u':
-          // Unicode escape - simplified implementation
-          if (_pos + 4 >= _text.size())
+        {
+          // Unicode escape: four hex digits, or two such escapes forming a UTF-16 surrogate pair
+          std::uint32_t cp = 0;
+          std::uint32_t low = 0;
+          if (!_parseHex4(cp))
           {
-            _error = "Invalid unicode escape";
             return false;
           }
-          _pos += 4;  // Skip the 4 hex digits for now
-          str += '?'; // Placeholder
+          if (cp >= 0xD800 && cp <= 0xDBFF && _text.substr(_pos + 1, 2) == "\\u")
+          {
+            _pos += 2;
+            if (!_parseHex4(low))
+            {
+              return false;
+            }
+            if (low >= 0xDC00 && low <= 0xDFFF)
+            {
+              cp = 0x10000 + ((cp - 0xD800) << 10) + (low - 0xDC00);
+            }
+          }
+          if (cp >= 0xD800 && cp <= 0xDFFF)
+          {
+            _error = "Unpaired surrogate in unicode escape";
+            return false;
+          }
+          _appendUtf8(str, cp);
           break;
+        }
         default:
           _error = "Invalid escape sequence";
           return false;
